@@ -451,6 +451,11 @@ pub fn check_wire_full(p: &Proto, mode: Mode, slack: Option<(isize, isize)>, scr
             if wires(&e) != rw {
                 v.push(("the choice of backend is observable on the wire (bytes differ from the default backend's)".into(), format!("{} {bi:?}/{br:?}", p.name), c.clone(), ops.clone()));
             }
+            // ... nor at the receiving end: what every read returns (length and payload) is what it returns in the
+            // all-default session
+            if let Some((k, (a, b))) = e.steps.iter().zip(&reference.steps).enumerate().find(|(_, (a, b))| matches!(a.op, Op::HsRead { .. } | Op::TRead { .. } | Op::SRead { .. }) && a.real != b.real) {
+                v.push(("the choice of backend is observable in what a read returns (differs from the default backend's result)".into(), format!("{} {bi:?}/{br:?}: step {k} {:?} -> {} (default backend: {})", p.name, a.op, a.real.short(), b.real.short()), c.clone(), ops.clone()));
+            }
         }
     }
     (v, n)
